@@ -1,14 +1,14 @@
 SPECIFICATION Spec
 CONSTANTS
-  Alpha <- Alpha3
+  Alpha <- Alpha2
   KeyMode = "dash"
   CountFirst = TRUE
   FixNonce = TRUE
-  PairSet <- Pairs3
+  PairSet <- Pairs2
   LenSet = {1, 2}
   MaxCountSet = {0, 1, 2}
   MaxVerifySet = {0, 1, 2}
-  MaxSends = 4
+  MaxSends = 3
 INVARIANTS TypeOK Coupled WindowBound AlphabetCovered
 PROPERTIES VerifiesWhenDue RejectsUnlessDue LimitTruthful SendsBounded RefusalsJustified SendResets
 CONSTRAINT Bound
